@@ -529,6 +529,12 @@ func runC10(c *Ctx) {
 	// a valid FEN must be accepted as it stands: the decoder's consistency checks test the right squares
 	// (rules of C19, re-decided here)
 	c.guard("R10-engine", func() { r.WithAlias("R19-homes", "R10-engine", func() { c19Homes(c, "R19-homes") }) })
+	// ... and the game set up from 'position fen' is the one the six fields describe only if the decoder hands
+	// every field on to the position it builds: side, castling rights, e.p. square and both clocks, each from
+	// its own field (rule of C14, re-decided here; a dropped e.p. square is accepted silently and the e.p.
+	// capture in the move list is then refused)
+	r.Rule("R10-decode", "fen.Decode wires every field of the text into the position and the values it returns (placement, side, castling rights, e.p. square, half-move clock, full-move number, each from its own field), and Engine.Reset / NewBoard pass them on in order (rule of C14)", 6)
+	c.guard("R10-decode", func() { r.WithAlias("R14-wiring", "R10-decode", func() { c14Wiring(c) }) })
 }
 
 // mustStoredBefore: the keys for which a store has happened on EVERY path from the function's
